@@ -13,6 +13,7 @@ TRUSTED = [
     "the unfold loop (ICal.unfold, shared with C17) and RDATE/EXDATE/DTSTART parameters are in the model and the correspondence but no theorem is stated about them; multi_line_builds_set is for parameter-less lines joined by newlines without unfold",
 ]
 ASSUMPTIONS = [
+    "the theorems str_roundtrip* / str_roundtrip_rule are about calendar.firstweekday() == 0 (the interpreter's default); str_roundtrip_rule_ambient states the ambient value explicitly; the oracle and the correspondence also run under setfirstweekday(0..6)",
     "texts in the correspondence are ASCII (str.upper/split/splitlines/int are modelled for ASCII)",
     "aware dtstart through str() is excluded by the property itself (upstream xfail)",
 ]
@@ -473,6 +474,37 @@ def correspondence(ctx):
             ctx.c13_str_mismatch_rules.append({"rule": rl[2]})
             ctx.mismatch("rrs.str", q, bytes.fromhex(e[3:]).decode() if e[3:] != "." else "", bytes.fromhex(g[3:]).decode() if g.startswith("ok ") and g[3:] != "." else g)
     ctx.traces += len(reqs)
+    # the same two ops under an ambient first weekday (the model's str/parse do not depend on it; _wkst does)
+    import calendar
+    saved_fwd = calendar.firstweekday()
+    try:
+        areqs, aexp, aparse = [], [], []
+        for i in range(ctx.budget(40, 600)):
+            k = 1 + i % 6
+            calendar.setfirstweekday(k)
+            freq, ds, kw = week_sensitive_kwargs(rng)
+            try:
+                r = build(freq, ds, kw)
+            except (ValueError, Timeout):
+                continue
+            s_ = str(r)
+            areqs.append(str_request(r)); aexp.append("ok " + hexs(s_))
+            try:
+                res, _ = impl_parse(s_)
+            except Timeout:
+                continue
+            aparse.append(("rrs.parse 0000000 %s" % hexs(s_), res, k))
+        got = ctx.driver(areqs)
+        for q, e, g in zip(areqs, aexp, got):
+            if e != g:
+                ctx.mismatch("rrs.str (ambient first weekday)", q, e, g)
+        got = ctx.driver([q for q, _, _ in aparse])
+        for (q, res, k), g in zip(aparse, got):
+            if canon_impl(res, g) != g:
+                ctx.mismatch("rrs.parse (ambient first weekday %d)" % k, q, canon_impl(res, g), g)
+        ctx.traces += len(areqs) + len(aparse); ctx.count("ambient_correspondence", len(areqs))
+    finally:
+        calendar.setfirstweekday(saved_fwd)
     # parse side: str() outputs, spellings, folded, sets, malformed, mutated
     cases = []
     for r, s, _ in rules:
@@ -893,6 +925,88 @@ def oracle_fresh(ctx):
                 ctx.violation("rrulestr %s raised %s instead of ValueError" % (label, got[4:]), dict(case, outcome_first=got, outcome_warm=warm), None)
                 break
 
+# ---- the ambient first weekday (calendar.setfirstweekday): process-wide state that rrule() reads when wkst is not given
+
+def week_sensitive_kwargs(rng):
+    """rules whose occurrences depend on the week start: WEEKLY with interval >= 2 and several BYDAY, BYWEEKNO;
+    wkst absent, MO (as 0 and as the weekday object), or another day"""
+    from dateutil import rrule as R
+    ds = datetime.datetime(rng.choice([1997, 2000, 2015, 2024]), rng.randint(1, 12), rng.randint(1, 28), 9, 0, 0)
+    kw = {"count": rng.randint(3, 8)}
+    w = rng.choice(["absent", "absent", 0, R.MO, rng.randint(1, 6), R.weekdays[rng.randint(1, 6)]])
+    if w != "absent":
+        kw["wkst"] = w
+    if rng.random() < 0.6:
+        freq = R.WEEKLY
+        kw["interval"] = rng.choice([2, 2, 3, 4])
+        kw["byweekday"] = rng.sample(range(7), rng.randint(2, 4))
+    else:
+        freq = R.YEARLY
+        kw["byweekno"] = rng.sample([1, 2, 20, 52, 53, -1], rng.randint(1, 2))
+        if rng.random() < 0.6:
+            kw["byweekday"] = rng.sample(range(7), rng.randint(1, 3))
+    return freq, ds, kw
+
+def oracle_ambient(ctx):
+    import calendar
+    from dateutil import rrule as R
+    rng = ctx.subrng("oracle-ambient")
+    saved = calendar.firstweekday()
+    try:
+        for i in range(ctx.budget(70, 2000)):
+            if ctx.escalated and len(ctx.violations) >= 5:
+                break
+            k = i % 7
+            calendar.setfirstweekday(k)
+            freq, ds, kw = week_sensitive_kwargs(rng) if rng.random() < 0.8 else gen_kwargs(rng, small_years=False)
+            kw = {a: v for a, v in kw.items() if not (isinstance(v, (tuple, list)) and len(v) == 0)}
+            try:
+                r = build(freq, ds, kw)
+                base = head(iter(r))
+                s = str(r)
+            except (ValueError, Timeout, ZeroDivisionError, OverflowError, IndexError):
+                continue
+            case = {"kind": "ambient", "ambient_firstweekday": k, "rule_wkst": r._wkst, "text": s, "kwargs": repr(kw), "freq": freq, "dtstart": ds.isoformat()}
+            ctx.case((s, k, "ambient")); ctx.count("ambient_%d" % k)
+            try:
+                with warnings.catch_warnings():
+                    warnings.simplefilter("ignore")
+                    got = head(iter(R.rrulestr(s)))
+            except Timeout:
+                continue
+            except Exception as ex:
+                ctx.violation("under calendar.setfirstweekday(%d) rrulestr(str(rule)) raised %s" % (k, exc_kind(ex)), case, repr(ex)); continue
+            if got != base:
+                # D-C13-ambient-wkst is claimed only with: model = implementation for str() and the parse of that text, and the
+                # reparsed occurrences being those of the same arguments with wkst = the ambient value
+                try:
+                    res, _ = impl_parse(s)
+                    m = ctx.driver([str_request(r), "rrs.parse 0000000 %s" % hexs(s)])
+                    case["model_agrees_with_implementation"] = bool(m[0] == "ok " + hexs(s) and canon_impl(res, m[1]) == m[1])
+                    case["explained_by_ambient_week_start"] = bool(head(iter(build(freq, ds, dict(kw, wkst=k)))) == got)
+                except Exception as ex:
+                    case["model_agrees_with_implementation"] = False; case["matcher_error"] = repr(ex)
+                ctx.violation("under calendar.setfirstweekday(%d) rrulestr(str(rule)) generates different occurrences" % k, case,
+                              {"rule": [d.isoformat() for d in base[:4]], "reparsed": [d.isoformat() for d in got[:4]]})
+                continue
+            # text -> rule under the ambient value: an explicit WKST in the text wins, no WKST means the ambient value
+            for wk_txt, wk in (("", k), (";WKST=MO", 0), (";WKST=SU", 6)):
+                if "WKST=" in s:
+                    continue
+                try:
+                    want = head(iter(build(freq, ds, dict(kw, wkst=wk))))
+                    with warnings.catch_warnings():
+                        warnings.simplefilter("ignore")
+                        gotw = head(iter(R.rrulestr(s + wk_txt)))
+                except (ValueError, Timeout, ZeroDivisionError, OverflowError, IndexError):
+                    continue
+                ctx.case((s + wk_txt, k, "ambient-text"))
+                if gotw != want:
+                    ctx.violation("under calendar.setfirstweekday(%d) the text %r does not mean wkst=%d" % (k, s + wk_txt, wk),
+                                  dict(case, kind="ambient-text", text=s + wk_txt), None)
+    finally:
+        calendar.setfirstweekday(saved)
+
 def oracle_malformed(ctx):
     from dateutil import rrule as R
     # (5) unknown or malformed parts raise ValueError
@@ -992,6 +1106,7 @@ def oracle(ctx):
     from dateutil import rrule as R, tz
     # the cheap sections first, so that the failing-input search after a correspondence mismatch reaches them early
     oracle_fresh(ctx)
+    oracle_ambient(ctx)
     oracle_options(ctx)
     oracle_sets(ctx)
     oracle_malformed(ctx)
@@ -1098,7 +1213,15 @@ def empty_by_list(case):
             and case.get("model_agrees_with_implementation") is True
             and case.get("explained_by_default_of_dropped_part") is True)
 
-KNOWN = {"D-C13-empty-by-list": lambda v: empty_by_list(v["case"])}
+def ambient_wkst(case):
+    """D-C13-ambient-wkst, tight: ambient first weekday != 0, the rule's own week start is Monday (so WKST is not printed),
+    the model reproduces the implementation's str() and parse on this rule, and the reparsed occurrences are those of the same
+    arguments with wkst = the ambient value"""
+    return (case.get("kind") == "ambient" and case.get("ambient_firstweekday") not in (0, None) and case.get("rule_wkst") == 0
+            and case.get("model_agrees_with_implementation") is True and case.get("explained_by_ambient_week_start") is True)
+
+KNOWN = {"D-C13-empty-by-list": lambda v: empty_by_list(v["case"]),
+         "D-C13-ambient-wkst": lambda v: ambient_wkst(v["case"])}
 
 def replay(ctx, payload):
     """re-evaluate the recorded failing case on the current tree (option cases are rebuilt from the recorded rule,
